@@ -139,3 +139,46 @@ func init() {
 			map[string]int64{"c07_walks": 20000000, "c07_single_hit_lists": 20, "c07_docnum1hit_seen": 20, "c07_replace_actual_subsets": 10000, "c07_random_steps": 200000, "c07_random_lists_card_gt_1024": 50}),
 	}
 }
+
+func init() {
+	props["C12"] = &propSpec{
+		Level:       "exploration",
+		Rule:        "seeded batches mixing ordinary and synonym documents (1-3 thesauri, explicit left-hand sides and equivalence groups, shared synonyms, the same term defined by several documents, empty left-hand term, 1-2 synonym fields per document) x chunk modes; for every thesaurus (+ unknown names, ordinary field names): sorted term list, a key range, Contains; for every term (+ unknown) x exclusion bitmaps {nil, empty, each defining doc, all, 3 seeded subsets}: the set of (synonym, document) pairs, alternately with fresh and recycled list/iterator objects; in memory and after persist+open; synonym fields have empty dictionaries; distinct = batch fingerprint; non-trivial = >= 2 documents and >= 1 thesaurus",
+		Assumptions: commonAssumptions,
+		Runs:        simple("C12", "plain"),
+		Min: mins(map[string]int64{"syn_lookups": 20000, "syn_pairs_compared": 20000, "thes_terms_defined_by_2plus_docs": 200, "thes_prealloc_reuse": 5000},
+			map[string]int64{"syn_lookups": 300000, "syn_pairs_compared": 300000, "thes_terms_defined_by_2plus_docs": 3000, "thes_prealloc_reuse": 80000}),
+	}
+}
+
+func init() {
+	props["C10"] = &propSpec{
+		Level:       "exploration",
+		Rule:        "sequential part: seeded histories of 8-14 builds in one goroutine (maximises reuse of the pooled builder; reuse is measured through the verif hook) over kinds {large, small, many-fields, few-fields, synonyms, plain, vectors, empty, rejected-by-validator, one, doc-values, no-doc-values, deep} with every ordered pair of kinds forced over the cases; every produced segment is checked against its own batch on the full surface (postings, stored, ids, doc values, thesauri incl. thesaurus names of earlier batches, vectors). Concurrent part (race detector): 4/8/16 goroutines run such histories simultaneously under GOMAXPROCS 2/4/16. distinct = history fingerprint; every history is non-trivial (>= 6 builds)",
+		Assumptions: append([]string{"sync.Pool is not controllable: reuse is encouraged (same goroutine) and measured, a sequential run with < 50 % recycled builds is inconclusive", "process-global knobs (chunk mode, validator) are written only between phases"}, commonAssumptions...),
+		Runs: func(tier string) []runSpec {
+			return []runSpec{
+				{Workload: "C10", Flavour: "plain", Shards: 16, TimeoutS: tq(tier, 600, 3600)},
+				{Workload: "C10c", Flavour: "race", Shards: 8, TimeoutS: tq(tier, 900, 3600)},
+			}
+		},
+		Min: mins(map[string]int64{"builds": 1500, "builds_on_recycled_builder": 800, "builds_rejected": 50, "concurrent_rounds": 20},
+			map[string]int64{"builds": 25000, "builds_on_recycled_builder": 12000, "builds_rejected": 800, "concurrent_rounds": 200}),
+	}
+}
+
+func init() {
+	props["C11"] = &propSpec{
+		Level:       "exploration",
+		Rule:        "rounds of 4/8/32 goroutines under GOMAXPROCS 1/2/16 over three fresh shared segments per round (in memory, mmap, second batch; with thesauri, so lazy FST/thesaurus caches are cold and contended), each goroutine running 14 seeded operations from {postings walks, full stored visits with every early-stop position, visitor-stability monitor (copy on entry, yield, compare on exit), visitors stopping at _id / later, visitors blocking until others progressed, DocID/DocNumbers, doc values with private state, thesaurus + dictionary iteration, Merge of the shared segments checked against model-merge}; 0/1/3 early-terminated visits precede the concurrent phase (shapes the scratch pool); every answer compared with the precomputed sequential answer (the model); run under the race detector and, with 4x the rounds, without it; distinct = batch-pair fingerprint",
+		Assumptions: append([]string{"a race report counts when one of its stacks contains a zapx frame; a report with only harness frames makes the run inconclusive"}, commonAssumptions...),
+		Runs: func(tier string) []runSpec {
+			return []runSpec{
+				{Workload: "C11", Flavour: "race", Shards: 16, TimeoutS: tq(tier, 900, 3600)},
+				{Workload: "C11", Flavour: "plain", Shards: 16, TimeoutS: tq(tier, 600, 3600)},
+			}
+		},
+		Min: mins(map[string]int64{"concurrent_rounds": 150, "visitor_callbacks_monitored": 5000, "early_stop_visits": 3000, "op_merge": 150, "blocked_visitor_overlaps": 100},
+			map[string]int64{"concurrent_rounds": 2000, "visitor_callbacks_monitored": 60000, "early_stop_visits": 40000, "op_merge": 2000, "blocked_visitor_overlaps": 1500}),
+	}
+}
